@@ -1024,7 +1024,7 @@ func runC09(e *Env) {
 	})
 	e.R.AddPart(ev.Part{Name: "short-inputs-cli", Enumerated: fmt.Sprintf("real binary: every chord text of length <= %d over 22 symbols (C04's alphabet + NUL, 0xFF, 0xC3, ♯, CR) on text parse / conv degree / conv syllable; every YAML string of length <= 2 over 15 symbols on write / write event / write parse / write conv; every string of length <= 2 over C04's alphabet (and 14 longer ones) as the -t target of info chord describe, 9 x 8 (target, root) pairs of info attr describe", tl), Executions: int64(nShort), Exhaustive: true})
 	e.R.AddPart(ev.Part{Name: "one-deviation-mutants-cli", Enumerated: fmt.Sprintf("real binary: every truncation, deletion, and replacement/insertion by each of 20 bytes at every position of %s", map[bool]string{true: "3 chord texts, 3 instance documents, a chord file and an attribute file", false: "1 chord text, 1 instance document and a chord file"}[e.Thorough]), Executions: int64(nMut), Exhaustive: true})
-	e.R.AddPart(ev.Part{Name: "nonsense-table-cli", Enumerated: "real binary: {zero / zero-denominator durations, no durations, bpm 0, unknown dynamic, bad meter, unknown symbol, unknown modifier / conversion / target, keys without scale (H, c, Cmaj, Fb, E#m, Abm, and a key name with anything before, after or around it: xxG#yy, XAm, Key of G, E#Gb, Amx, G major, CC, ...), mixed notation, empty piece, inconsistent dictionaries} x {text metadata, YAML field, flag} x every command that has to interpret it, each also with -o and with the input given as a FILE argument; nonsense that a stage may pass on is piped into `write`, which must refuse it; plus unusual dictionary files (deep extends chain, YAML anchors/alias cycle, empty/null entries) held to the failure-shape oracle", Executions: int64(nTable), Exhaustive: true})
+	e.R.AddPart(ev.Part{Name: "nonsense-table-cli", Enumerated: "real binary: {zero / zero-denominator durations, no durations, bpm 0, unknown dynamic, bad meter, unknown symbol, unknown modifier / conversion / target, keys without scale (H, c, Cmaj, Fb, E#m, Abm, and a key name with anything before, after or around it: xxG#yy, XAm, Key of G, E#Gb, Amx, CC, ...), mixed notation, empty piece, inconsistent dictionaries} x {text metadata, YAML field, flag} x every command that has to interpret it, each also with -o and with the input given as a FILE argument; nonsense that a stage may pass on is piped into `write`, which must refuse it; plus unusual dictionary files (deep extends chain, YAML anchors/alias cycle, empty/null entries) held to the failure-shape oracle", Executions: int64(nTable), Exhaustive: true})
 	e.R.AddPart(ev.Part{Name: "flag-values-cli", Enumerated: "real binary: every value flag of every command x {empty, 0, -1, abc, 1e3, 2^64-1, 2^64, 300 digits, invalid UTF-8, C, 1/2}; --track 2, 33, 70000; 2..300 dictionary files on one command line; every pair of write flags x {valid, nonsense} values; valid baselines", Executions: int64(nFlags), Exhaustive: true})
 
 	// in-process short inputs (longer than through the binary)
